@@ -112,9 +112,9 @@ class Library:
     def _cast_to_duplicate(
         prev_block_with_same_key: Union[Entry, String], duplicate: Union[Entry, String]
     ):
-        assert isinstance(prev_block_with_same_key, type(duplicate)) or isinstance(
-            duplicate, type(prev_block_with_same_key)
-        ), (
+        assert (
+            isinstance(prev_block_with_same_key, Entry) and isinstance(duplicate, Entry)
+        ) or (isinstance(prev_block_with_same_key, String) and isinstance(duplicate, String)), (
             "Internal BibtexParser Error. Duplicate blocks share no common type."
             f"Found {type(prev_block_with_same_key)} and {type(duplicate)}, but both should be"
             f"either instance of String or instance of Entry."
